@@ -159,7 +159,7 @@ TIES = {
    'bp-comments-docstring': both(ed(PB, ("        prefix = message_repr(message, template='{}:')\n        src_args = src_fmt.argument_map", "        '''compare the arguments of two python-brace strings'''\n        prefix = message_repr(message, template='{}:')\n        # the parsed arguments:\n        src_args = src_fmt.argument_map")), ed(SC, ("        if n > len(self.arguments):\n            raise IndexError\n        if n <= 0:", "        if n > len(self.arguments):\n            raise IndexError  # more than there are\n        if n <= 0:"))),
    'bp-temp-for-keys': ed(PY, ("        for key in sorted(dst_args.keys() - src_args.keys()):", "        unknown_keys = dst_args.keys() - src_args.keys()\n        for key in sorted(unknown_keys):")),
    'bp-not-form': ed(PB, ("            if not (src_arg.types & dst_arg.types):", "            common = src_arg.types & dst_arg.types\n            if not common:")),
-   'seeded/C14-a': seeded('C14-a'), 'seeded/C14-b': seeded('C14-b'),
+   'seeded/C14-a': seeded('C14-a'), 'seeded/C14-b': seeded('C14-b'), 'seeded/C14-c': seeded('C14-c'),
   }},
 }
 
